@@ -76,7 +76,8 @@ def gen_agg(r, tag, earlier, features, prefix=''):
             if a_hasflex(a):
                 continue
             if r.random() < 0.3:
-                members.append(Member(name, '%s %s[%d]' % (a.cname, name, r.randrange(1, 4)), 'array', ty=a.cname, agg=a))
+                dn = r.randrange(1, 4)
+                members.append(Member(name, '%s %s[%d]' % (a.cname, name, dn), 'array', ty=a.cname, agg=a, dims=[dn]))
             else:
                 members.append(Member(name, '%s %s' % (a.cname, name), 'agg', agg=a))
             names += 1
@@ -87,8 +88,9 @@ def gen_agg(r, tag, earlier, features, prefix=''):
             names += 1
         elif k < 0.62:
             ty, sz = r.choice(SCALARS)
-            dims = ''.join('[%d]' % r.randrange(1, 5) for _ in range(r.randrange(1, 3)))
-            members.append(Member(name, fmt_decl(ty, name, dims), 'array', ty=ty))
+            dl = [r.randrange(1, 5) for _ in range(r.randrange(1, 3))]
+            dims = ''.join('[%d]' % x for x in dl)
+            members.append(Member(name, fmt_decl(ty, name, dims), 'array', ty=ty, dims=dl))
             names += 1
         else:
             ty, sz = r.choice(SCALARS + ([('long double', 16)] if 'ldouble' in features else []))
